@@ -25,6 +25,7 @@ type ReqCase struct {
 	Abs        map[string]any      `json:"abs"`        // the harness's abstract description, echoed in the Req event
 	FailWrites bool                `json:"failWrites"` // the ResponseWriter's Write fails (client went away)
 	Cancelled  bool                `json:"cancelled"`  // the request context is already cancelled
+	Chunked    bool                `json:"chunked"`    // the body arrives with unknown length (Transfer-Encoding: chunked): ContentLength -1, as a server sees it
 }
 
 // countingWriter observes how a response is written.
@@ -65,16 +66,24 @@ func Serve(h http.Handler, rec *Recorder, c ReqCase) {
 	}
 	rec.Emit(ev)
 	var body io.ReadCloser = http.NoBody
+	var bodyLen int64
 	if c.HasBody {
 		bs := []byte(c.Body)
 		if c.BodyB64 {
 			bs = unb64(c.Body)
 		}
 		body = io.NopCloser(bytes.NewReader(bs))
+		bodyLen = int64(len(bs))
 	}
 	r := &http.Request{
 		Method: c.Method, URL: &url.URL{Path: c.Path, RawPath: c.RawPath, RawQuery: c.RawQuery}, Proto: "HTTP/1.1", ProtoMajor: 1, ProtoMinor: 1,
 		Header: http.Header{}, Body: body, Host: "example.test", RequestURI: c.Path,
+	}
+	// what a net/http server hands to the handler: the announced length, or -1 for a chunked body
+	r.ContentLength = bodyLen
+	if c.Chunked && c.HasBody {
+		r.ContentLength = -1
+		r.TransferEncoding = []string{"chunked"}
 	}
 	for k, vs := range c.Headers {
 		for _, v := range vs {
